@@ -40,6 +40,7 @@ def gen_case(rng):
         k = -m if D > 0 else F - 1 + m
     c = dict(T=T, F=F, df=df, dt=dt, fch1=fch1, ascending=asc, f_start=fmin + (k + frac) * df, drift=D * df / dt, level=float(rng.randint(1, 5)),
              width=wch * df, ptype=rng.choice(["box", "box", "sinc2", "sinc2", "gaussian", "lorentzian", "voigt"]), smear=rng.random() < 0.5)
+    c["level_kind"] = rng.choice(["float", "float", "int", "int64", "float32", "float64"])      # "every level": whatever number type it arrives in
     c["mirror_ok"] = (frac == 0.0 and 0 <= k < F)
     return c, fmin
 
